@@ -173,6 +173,75 @@ def parallel_partners(ctx, rep):
                         "the exchange then blocks or loses individuals", "C11:parallel-partner", case)
         lines.append("parpartner ; " + " ".join(map(str, order)))
         meta.append(case)
+    # the whole migration phase of a parallel archipelago (every rank in its own thread, a stand-in communicator that only
+    # provides bcast and a rendezvous sendrecv): conservation, sizes, who is marked for re-evaluation, nobody blocks
+    import threading
+    for t in range(ctx.n(60, 600)):
+        R = rng.choice([1, 2, 3, 3, 4, 5, 7])
+        order = list(range(R))
+        rng.shuffle(order)
+        size = rng.choice([1, 2, 3, 4, 6, 7])
+        box, cond = {}, threading.Condition()
+
+        class Comm:
+            def __init__(self, me):
+                self.me = me
+
+            def bcast(self, x, root=0):
+                return list(order)
+
+            def sendrecv(self, obj, dest, sendtag=0, source=None, recvtag=0):
+                with cond:
+                    box[(self.me, dest)] = obj
+                    cond.notify_all()
+                    if not cond.wait_for(lambda: (source, self.me) in box, timeout=5.0):
+                        raise TimeoutError(f"rank {self.me} waits for rank {source} forever")
+                    return box.pop((source, self.me))
+        islands, errors = [], {}
+        for r in range(R):
+            isl, _ = simple_island(0)
+            isl.population = [scripted_chromosome(100 * r + i, float(i)) for i in range(size)]
+            islands.append(isl)
+        before = [[c.values[0] for c in isl.population] for isl in islands]
+
+        def work(r):
+            try:
+                pa = ParallelArchipelago.__new__(ParallelArchipelago)
+                pa.comm, pa.comm_rank, pa.comm_size, pa._num_islands, pa.island = Comm(r), r, R, R, islands[r]
+                pa._shuffle_island_indices = lambda o=order: list(o)
+                np.random.seed(1000 * t + r)
+                pa._coordinate_migration_between_islands()
+            except Exception as exc:
+                errors[r] = f"{type(exc).__name__}: {exc}"
+        threads = [threading.Thread(target=work, args=(r,)) for r in range(R)]
+        for th in threads:
+            th.start()
+        for th in threads:
+            th.join(20.0)
+        after = [[c.values[0] for c in isl.population] for isl in islands]
+        case = {"order": order, "island_size": size, "before": before, "after": after}
+        rep.case(("parmigration", tuple(order), size), R > 1)
+        rep.count("parallel_migration_ranks", R)
+        if errors or any(th.is_alive() for th in threads):
+            rep.violate(f"parallel migration, island order {order}: {errors or 'a rank never returned'}", "C11:parallel-migration", case)
+            continue
+        if sorted(v for p in after for v in p) != sorted(v for p in before for v in p):
+            rep.violate(f"parallel migration, island order {order}: the individuals over all ranks changed from {before} to {after}",
+                        "C11:parallel-migration", case)
+        elif [len(p) for p in after] != [len(p) for p in before]:
+            rep.violate(f"parallel migration, island order {order}: island sizes {[len(p) for p in before]} -> {[len(p) for p in after]}",
+                        "C11:parallel-migration", case)
+        else:
+            part = set(order[: 2 * (R // 2)])
+            for r in range(R):
+                flags = [c.fit_set for c in islands[r].population]
+                if r in part and any(flags):
+                    rep.violate(f"parallel migration: rank {r} exchanged individuals but {sum(flags)} of its members stay marked evaluated",
+                                "C11:parallel-migration", case)
+                    break
+                if r not in part and after[r] != before[r]:
+                    rep.violate(f"parallel migration: rank {r} sits out but its population changed", "C11:parallel-migration", case)
+                    break
     if ctx.driver_ok and lines:
         outs = run_driver(lines)
         rep.corr_cases = getattr(rep, "corr_cases", 0) + len(lines)
